@@ -546,9 +546,9 @@ func streamConfig(e *Emitter, rng *rand.Rand, tier string) {
 				case 0:
 					b.Path = pick(rng, cfgBadTemplates)
 				case 1:
-					b.Body = pick(rng, []string{"nosuch", "inner.id", "name.x", "tags.x", "."})
+					b.Body = pick(rng, []string{"nosuch", "inner.id", "name.x", "tags.x", ".", "name.", "inner.", ".name", "inner..id"})
 				case 2:
-					b.Resp = pick(rng, []string{"nosuch", "inner.id", "items.x"})
+					b.Resp = pick(rng, []string{"nosuch", "inner.id", "items.x", "inner.", "items.", ".inner"})
 				case 3:
 					b.Kind = pick(rng, []string{"none", "custom:"})
 				case 4:
